@@ -82,6 +82,9 @@ def check_program(ctx: Ctx, init: FuncInfo):
     ctx.check(n_or == [0], "TS-PREP", init, "one oracle per iteration, first", c16._show(it), f"iteration is {c16._show(it)}", init.node)
     if n_or != [0]:
         return
+    if len(it) > 1 and "?" in it[1][1:]:
+        # a gate on a qubit the typestate program cannot place is not evidence of a wrong circuit
+        raise AnchorError(init.short, f"after the oracle the iteration applies {it[1]}: an operand is a qubit expression outside the tables (the result qubit is known as `<oracle circuit>['_ret']`)")
     ctx.check(len(it) > 1 and it[1] == ("cz", "out", "phase"), "TS-PREP", init, "result qubit kicks its value onto the phase qubit", str(it[1]) if len(it) > 1 else "", f"after the oracle the iteration applies {it[1] if len(it) > 1 else None}, not one controlled-Z from `_ret` onto the phase qubit", init.node)
     diff = it[2:]
     regs = set()
@@ -98,7 +101,10 @@ def check_program(ctx: Ctx, init: FuncInfo):
         ok = seq_for(pre, "in") == ["h", "x"] and seq_for(pre, "phase") == ["h", "x"] and seq_for(post, "in") == ["x", "h"] and seq_for(post, "phase") == ["x", "h"] and len(pre) == 4 and len(post) == 4
     ctx.check(ok, "TS-PREP", init, "diffuser = h;x / multi-controlled Z over the search register / x;h", c16._show(diff), f"the diffuser is {c16._show(diff)}", init.node)
     unknown = [e for e in flatten(events) if "?" in e[1:]]
-    ctx.check(not unknown, "TS-PREP", init, "every gate acts on a known register", "", f"gates on qubits the analysis cannot place: {c16._show(unknown)}", init.node)
+    if unknown:
+        ctx.undecided(init.short, f"TS-PREP [every gate acts on a known register]: gates on qubits the analysis cannot place: {c16._show(unknown)}")
+    else:
+        ctx.ok("TS-PREP", init, "every gate acts on a known register", "", init.node)
     # default iteration count only when none is given
     asg = [n for n in walk_no_nested(init.node) if isinstance(n, ast.Assign) and norm(n.targets[0]) == "n_iterations"]
     ok = len(asg) == 1 and any(pol and f == "n_iterations is None" for f, pol in [(norm(e), p) for e, p in guard_facts(init, asg[0])])
